@@ -874,6 +874,10 @@ func (te *TemplateEngine) cloneDocument(source *Document) *Document {
 	// 复制图片ID计数器
 	doc.nextImageID = source.nextImageID
 
+	// parts 中的 word/styles.xml 如果是源文档自己生成的，副本中的那一份同样是生成的：
+	// 保存时要按副本的样式管理器重新生成，否则渲染之后新建或修改的样式（以及表格样式）不会写入文件
+	doc.stylesGenerated = source.stylesGenerated
+
 	// 复制脚注/尾注和编号管理器（副本与源文档互不影响），使克隆文档上后续添加的
 	// 脚注、尾注和列表延续源文档的编号并保留已有定义
 	doc.footnoteManager = source.footnoteManager.clone()
